@@ -19,7 +19,8 @@ from mirsym import stdmodel
 from mirsym.stdmodel import deref_all, some, NONE
 
 PID = 'C14'
-ENTRY, DEP = 'entry.ts', 'dep.ts'
+# the entry point carries a backslash (a native Windows path as the watcher reports it): to the session code a file name is an opaque key
+ENTRY, DEP = 'w\\entry.ts', 'dep.ts'
 SPEC = './dep'
 
 PARSES = z3.Function('parses', z3.BitVecSort(8), z3.BoolSort())
@@ -246,6 +247,13 @@ class SessionEngine(Engine):
             e.note('emit_code = function of the observation')
             v = deref_all(e, st, argv[0])
             return Adt('Result', 'Ok', [ObsStr('code', v.fields[0].obs)])
+        if re.match(r'^(core::str::|std::str::)?(<impl str>::|str::)replace::<.*>$', n) or re.match(r'^(alloc::str::)?<impl str>::replace::<.*>$', n):
+            e.note('str::replace on concrete strings')
+            hay, pat, to = strv(e, st, argv[0]), argv[1], strv(e, st, argv[2])
+            pat_s = chr(pat) if isinstance(pat, int) else strv(e, st, pat).s
+            if hay.s is None or pat_s is None or to.s is None:
+                raise Unmodelled('str::replace on an opaque string')
+            return StrV(text=hay.s.replace(pat_s, to.s))
         if re.match(r'^(wasm_bindgen::)?JsValue::from_str$', n):
             return JsV(strv(e, st, argv[0]))
         if re.match(r'^(wasm_bindgen::)?JsValue::undefined$', n):
@@ -518,7 +526,7 @@ def text_of(f, cid, model):
 
 def concretise(v):
     model = v['model']
-    job = {'initial': {f: text_of(f, c.id, model) for f, c in v['init'].items()}, 'steps': []}
+    job = {'entry': ENTRY, 'initial': {f: text_of(f, c.id, model) for f, c in v['init'].items()}, 'steps': []}
     for ev in v['events']:
         if ev[0] == 'rebuild':
             job['steps'].append(['rebuild'])
